@@ -120,3 +120,52 @@ def install(reg):
     reg.add_model(lambda x: x.ty == TVS, VSModel())
     reg.models = [(p, (GraphVS(m) if type(m).__name__.startswith("GraphModel") else m)) for p, m in reg.models]
     reg.extra_trusted.append(TRUSTED)
+
+
+# ---------------------------------------------------------------------- conversions used by compute_attractors_symbolic (assumed AEON operations)
+from .sdmodel import TVSet
+from .externals_aeon import TCtxObj
+VSet = TVSet.sort()
+cvs_of_bdd = z3.Function("ColoredVertexSet_of_bdd", TCtxObj.sort(), T.Bdd, VS)
+vertices_of = z3.Function("cvs_vertices", VS, VSet)
+transfer = z3.Function("transfer_from", G, VSet, G, VSet)
+vset_inter = z3.Function("vertexset_intersect", VSet, VSet, VSet)
+TRUSTED["aeon.ColoredVertexSet(ctx, bdd) / .vertices() / AsynchronousGraph.transfer_from / VertexSet.intersect"] = (
+    "set constructors and conversions between symbolic contexts (opaque functions of their arguments)")
+
+
+class VSModel2(VSModel):
+    def method(self, eng, st, val, meth, args, kw, node, recv_expr=None):
+        if meth == "vertices" and not args:
+            return Val(TVSet, vertices_of(val.t))
+        return super().method(eng, st, val, meth, args, kw, node, recv_expr)
+
+
+class VSetModel(ObjModel):
+    def method(self, eng, st, val, meth, args, kw, node, recv_expr=None):
+        if meth == "intersect" and len(args) == 1 and args[0].ty == TVSet:
+            return Val(TVSet, vset_inter(val.t, args[0].t))
+        raise OutOfSubset(f"VertexSet.{meth}")
+
+
+class GraphVS2(GraphVS):
+    def method(self, eng, st, val, meth, args, kw, node, recv_expr=None):
+        if meth == "transfer_from" and len(args) == 2:
+            return Val(TVSet, transfer(val.t, args[0].t, args[1].t))
+        return super().method(eng, st, val, meth, args, kw, node, recv_expr)
+
+
+_install_vs0 = install
+
+
+def install(reg):
+    _install_vs0(reg)
+    reg.models = [(p, (VSModel2() if type(m) is VSModel else (GraphVS2(m.inner) if type(m) is GraphVS else m))) for p, m in reg.models]
+    reg.add_model(lambda x: x.ty == TVSet, VSetModel())
+
+    def cvs(eng, st, node):
+        a = [eng.ev(x, st) for x in node.args]
+        if len(a) != 2 or a[0].ty != TCtxObj or a[1].ty != TBdd:
+            raise OutOfSubset("ColoredVertexSet(<unexpected arguments>)")
+        return Val(TVS, cvs_of_bdd(a[0].t, a[1].t))
+    reg.global_calls["ColoredVertexSet"] = cvs
